@@ -220,8 +220,14 @@ def translate_to_from(toks, name):
     where = f"src/system.rs fn {name}"
     attrs, i = _find_fn(toks, name)
     stmts = _split_stmts(_body(toks, i))
-    lets = {}
-    order = []
+    # the value parameter: `fn name<..>(PARAM: &V)`
+    k = i
+    while toks[k][:2] != ("punct", "("):
+        k += 1
+    param = toks[k + 1][1]
+    names = {param: "RAW"}          # local name -> what it denotes (classified by the right-hand side, not by the name)
+    kinds = []
+    cons = "ConsUnknown"
     for s in stmts[:-1]:
         if not s:
             continue
@@ -229,17 +235,26 @@ def translate_to_from(toks, name):
             continue
         if s[0][:2] != ("id", "let") or s[2][:2] != ("punct", "="):
             raise TranslateError(f"{where}: unexpected statement {_txt(s)[:60]!r}")
-        lets[s[1][1]] = _txt(s[3:])
-        order.append(s[1][1])
-    flags = {
-        "v_conv": lets.get("v") == "v.conversion()",
-        "coef_unit": lets.get("n_coef") == "N::coefficient()",
-        "f_product": lets.get("f") == F_PRODUCT,
-        "cons": {"N::constant($crate::ConstantOp::Add)": "ConsAdd", "N::constant($crate::ConstantOp::Sub)": "ConsSub"}.get(lets.get("n_cons"), "ConsUnknown"),
-        "lets": order == ["v", "n_coef", "f", "n_cons"],
-    }
+        nm, rhs = s[1][1], _txt(s[3:])
+        if rhs.endswith(".conversion()") and names.get(rhs[:-len(".conversion()")]) == "RAW":
+            names[nm] = "TV"
+            kinds.append("v")
+        elif rhs == "N::coefficient()":
+            names[nm] = "TCoef"
+            kinds.append("coef")
+        elif rhs == F_PRODUCT:
+            names[nm] = "TF"
+            kinds.append("f")
+        elif rhs in ("N::constant($crate::ConstantOp::Add)", "N::constant($crate::ConstantOp::Sub)"):
+            names[nm] = "TCons"
+            kinds.append("cons")
+            cons = "ConsAdd" if rhs.endswith("Add)") else "ConsSub"
+        else:
+            raise TranslateError(f"{where}: `let {nm} = {rhs[:70]}` is none of the four bindings the model knows")
+    flags = {"v_conv": "v" in kinds, "coef_unit": "coef" in kinds, "f_product": "f" in kinds, "cons": cons,
+             "lets": sorted(kinds) == ["coef", "cons", "f", "v"]}
+    names = {k_: v_ for k_, v_ in names.items() if v_ != "RAW"}
     cond_t, a_t, b_t = _if_parts(stmts[-1], where)
-    names = {"v": "TV", "f": "TF", "n_coef": "TCoef", "n_cons": "TCons"}
     cond = _cond(E(cond_t, where).cond(), names, where)
     ea, va = _strip_value(E(a_t, where).cond(), where)
     eb, vb = _strip_value(E(b_t, where).cond(), where)
@@ -256,7 +271,13 @@ def translate_change_base(toks):
     # let v = v.conversion();   $( let v = { ... }; )+   v.value()
     if len(stmts) != 2:
         raise TranslateError(f"{where}: expected 2 statements (conversion; the repeated step followed by the result), found {len(stmts)}")
-    first_ok = _txt(stmts[0]) == "letv=v.conversion()"
+    k = i
+    while toks[k][:2] != ("punct", "("):
+        k += 1
+    param = toks[k + 1][1]
+    s0 = stmts[0]
+    first_ok = (s0[0][:2] == ("id", "let") and _txt(s0[3:]) == param + ".conversion()")
+    acc = s0[1][1] if first_ok else param
     rest = stmts[1]
     if not (rest[0][:2] == ("punct", "$") and rest[1][:2] == ("punct", "(")):
         raise TranslateError(f"{where}: the per-base-quantity step is not a `$( ... )+` repetition")
@@ -273,26 +294,36 @@ def translate_change_base(toks):
         raise TranslateError(f"{where}: repetition is not `+`")
     inner = rest[2:k]
     final = rest[k + 2:]
-    # inner = let v = { BLOCK } ;
-    if _txt(inner[:4]) != "letv={" or _txt(inner[-2:]) != "};":
-        raise TranslateError(f"{where}: step is not `let v = {{ ... }};`")
+    # inner = let ACC = { BLOCK } ;
+    if not (inner[0][:2] == ("id", "let") and inner[1][1] == acc and _txt(inner[2:4]) == "={" and _txt(inner[-2:]) == "};"):
+        raise TranslateError(f"{where}: step is not `let {acc} = {{ ... }};`")
     block = inner[4:-2]
     bst = _split_stmts(block)
-    lets = {}
+    names = {acc: "TV"}
+    r_side = l_side = "SideUnknown"
+    nlets = 0
     for s in bst[:-1]:
         if s[0][:2] != ("id", "let") or s[2][:2] != ("punct", "="):
             raise TranslateError(f"{where}: unexpected statement in step {_txt(s)[:60]!r}")
-        lets[s[1][1]] = _txt(s[3:])
-    side = {"Ur::$name::coefficient()": "SideRight", "Ul::$name::coefficient()": "SideLeft"}
-    r_side, l_side = side.get(lets.get("r"), "SideUnknown"), side.get(lets.get("l"), "SideUnknown")
+        nm, rhs = s[1][1], _txt(s[3:])
+        nlets += 1
+        # a local denotes the coefficient it is bound to, whatever it is called
+        if rhs == "Ur::$name::coefficient()":
+            names[nm] = "TR"
+            r_side = "SideRight"
+        elif rhs == "Ul::$name::coefficient()":
+            names[nm] = "TL"
+            l_side = "SideLeft"
+        else:
+            raise TranslateError(f"{where}: `let {nm} = {rhs[:70]}` is not a base-unit coefficient")
+    lets = {}
     cond_t, a_t, b_t = _if_parts(bst[-1], where)
-    names = {"v": "TV", "r": "TR", "l": "TL"}
     cond = _cond(E(cond_t, where).cond(), names, where)
     last = E(final, where).cond()
     _, took = _strip_value(last, where)
     return {"name": "change_base", "attrs": attrs, "first_ok": first_ok, "r_side": r_side, "l_side": l_side, "cond": cond,
             "then": _term(E(a_t, where).cond(), names, where), "else": _term(E(b_t, where).cond(), names, where),
-            "value": took and last[0] == "call" and last[3] == ("id", "v"), "nlets": len(lets)}
+            "value": took and last[0] == "call" and last[3] == ("id", acc), "nlets": nlets}
 
 
 def translate_struct(toks):
